@@ -24,6 +24,8 @@ SITE = {
     "tinv": "include/TFEL/Math/Matrix/TinyMatrixInvert.ixx:TinyMatrixInvert::exe",
     "qr": "include/TFEL/Math/QR/QRDecomp.ixx:QRDecomp::exe+tq_product+back_substitute",
 }
+PARTS = [(1, 5, True), (6, 8, False), (9, 10, False), (11, 12, False)]   # (first N, last N, runtime-sized entry points)
+DYNAMIC_OPS = ("lu", "lusolve", "qr")
 TOL = Fraction(1, 2 ** 30)   # relative backward error accepted by the property predicate (differing lines only)
 
 
@@ -302,10 +304,13 @@ def branch_class(req, model):
 
 def run(ck):
     rng = random.Random(ck.seed)
-    harness = ck.cxx("c07h", ["C07/harness.cxx"] +
-                     [vlib.REPO + "/src/Exception/" + f for f in ("TFELException.cxx",)] +
-                     [vlib.REPO + "/src/Math/" + f for f in ("LUException.cxx", "QRException.cxx", "MathException.cxx")],
-                     sanitize=True)
+    srcs = (["C07/harness.cxx"] +
+            [vlib.REPO + "/src/Exception/" + f for f in ("TFELException.cxx", "ContractViolation.cxx")] +
+            [vlib.REPO + "/src/Math/" + f for f in ("LUException.cxx", "QRException.cxx", "MathException.cxx")])
+    # the template-heavy harness is compiled in 4 parts in parallel (fixed sizes split); sanitizers in the thorough tier
+    harness = ck.cxx_many([("c07h_%d_%d" % (lo, hi), srcs,
+                            ("-DC07_NLO=%d" % lo, "-DC07_NHI=%d" % hi) + (("-DC07_DYNAMIC",) if dyn else ()))
+                           for (lo, hi, dyn) in PARTS], sanitize=not ck.quick)
     driver = ck.lean_exe("c07driver", "TfelVerif/C07/Driver.lean")
     res = ck.lean(PROPS, PROPS)
     ck.lean_violations(res)
@@ -318,12 +323,17 @@ def run(ck):
             for _ in range(per if n > 3 else 2 * per):
                 reqs.append(make_request(rng, op, n))
     text = "".join(r["line"] + "\n" for r in reqs)
-    pi = ck.run([harness], input=text, timeout=3000)
+    impl = ["missing"] * len(reqs)
+    for (lo, hi, dyn) in PARTS:
+        mine = [i for i, r in enumerate(reqs)
+                if (r["op"] in DYNAMIC_OPS and dyn) or (r["op"] not in DYNAMIC_OPS and lo <= r["n"] <= hi)]
+        pi = ck.run([harness["c07h_%d_%d" % (lo, hi)]], input="".join(reqs[i]["line"] + "\n" for i in mine), timeout=3000)
+        if pi.returncode != 0:
+            ck.violation("harness-crash", "the implementation harness aborted (sanitizer or crash)",
+                         {"stderr": pi.stderr[-2000:]}, False)
+        for i, a in zip(mine, pi.stdout.splitlines()):
+            impl[i] = a
     pm = ck.run([driver], input=text, timeout=3000)
-    if pi.returncode != 0:
-        ck.violation("harness-crash", "the implementation harness aborted (sanitizer or crash)",
-                     {"stderr": pi.stderr[-2000:]}, False)
-    impl = pi.stdout.splitlines()
     model = pm.stdout.splitlines()
     classes = {}
     outcomes = {}
